@@ -176,10 +176,10 @@ def run_impl(case):
     async def tb(ctx):
         for t in range(case["ncycles"]):
             rstb, wstb = rnd.getrandbits(1), rnd.getrandbits(1)
-            wdata = rnd.getrandbits(dut.element.width) if dut.element.width else 0
+            wdata = lib.bits(rnd, dut.element.width) if dut.element.width else 0
             frs = []
             for (p, f), w in zip(flat, widths):
-                v = rnd.getrandbits(w) if w else 0
+                v = lib.bits(rnd, w) if w else 0
                 frs.append(v)
                 sg = Value.cast(f.port.r_data)
                 ctx.set(sg, to_signed(v, w) if sg.shape().signed else v)
